@@ -180,3 +180,39 @@ func VerifC12_HostilePeer() {
 
 // larger configuration, explored delay-bounded (see check spec)
 func VerifC12_Faults3() { vC12Faults(3) }
+
+
+// A hostile (or merely fast) peer answers a request whose write has not yet
+// completed, and then that write fails: the call has its reply, and the client
+// must keep working - later calls are served, nothing hangs.
+func VerifC12_EarlyReplyThenWriteFailure() {
+	ch := newVPeerChannel()
+	ch.werrs = make(chan error)
+	ctx, cancel := context.WithCancel(vBG)
+	defer cancel()
+	t := newTransport(ctx, ch)
+	doneCh := make(chan error, 2)
+	go func() {
+		_, err := t.send(vBG, MessageTclunk{Fid: 1})
+		doneCh <- err
+	}()
+	vDrain() // the request is tagged (first tag handed out is 1) and its write is blocked
+	early := ndChoice("early", 2) == 1
+	if early {
+		ch.fromPeer <- &Fcall{Type: Rclunk, Tag: 1, Message: MessageRclunk{}}
+		vAssert(<-doneCh == nil, "C12: a reply carrying the call's tag completes the call")
+	}
+	ch.werrs <- errVMock // the blocked write fails
+	if !early {
+		vAssert(<-doneCh != nil, "C12: a call whose request cannot be written returns an error")
+	}
+	// the client still works
+	go func() {
+		_, err := t.send(vBG, MessageTclunk{Fid: 2})
+		doneCh <- err
+	}()
+	req2 := <-ch.toPeer // a wedged client is reported as a deadlock
+	ch.fromPeer <- &Fcall{Type: Rclunk, Tag: req2.Tag, Message: MessageRclunk{}}
+	vAssert(<-doneCh == nil, "C12: the client keeps working after a failed write")
+	vReach("c12.earlyreply")
+}
